@@ -353,4 +353,269 @@ theorem delLoc_den (ss : List Seg) (l : Loc) (hw : wf l = true) :
     rw [filterMapPos_filterMapPos] at h2
     exact h1.trans h2
 
+/-! ## insert / infix -/
+
+theorem insertAt_cons (embed : Bool) (i : Int) (idx : List Int) (host guest : Seq) :
+    insertAt embed (i :: idx) host guest =
+      insertAt embed idx (if embed then host.embed i guest else host.insert i guest) guest := rfl
+
+/-- the location of a HOST feature after the loop of `gts insert` (`embed = false`: `Shift(i, n)`)
+or `gts infix` (`embed = true`: `Expand(i, n)`) over the indices `idx`, first index first -/
+def insLoc (embed : Bool) (n : Int) : List Int → Loc → Loc
+  | [], l => l
+  | i :: idx, l => insLoc embed n idx (if embed then l.expand i n else l.shift i n)
+
+/-- the K2 guard of `insLoc`: `shiftAbs` / `expandAbs` of every step, folded along the same loop -/
+def insAbs (embed : Bool) (n : Int) : List Int → Loc → Bool
+  | [], _ => false
+  | i :: idx, l => (if embed then expandAbs l i n else shiftAbs l i n) ||
+      insAbs embed n idx (if embed then l.expand i n else l.shift i n)
+
+/-- a feature re-located by the rest of the loop -/
+def relocate (embed : Bool) (n : Int) (idx : List Int) (f : Feature) : Feature :=
+  { f with loc := insLoc embed n idx f.loc }
+
+/-- the features of the guest copies: the copy inserted at index `i` enters the table re-located
+by `Expand(0, i)` and is then a host feature for the remaining indices -/
+def guestCopies (embed : Bool) (n : Int) (gf : Table) : List Int → Table
+  | [] => []
+  | i :: idx => (gf.map fun f => relocate embed n idx { f with loc := f.loc.expand 0 i }) ++
+      guestCopies embed n gf idx
+
+theorem relocate_nil (embed : Bool) (n : Int) (f : Feature) : relocate embed n [] f = f := rfl
+
+/-- **feature table after the loop of insert / infix**: every host feature once, re-located by
+`insLoc`, and one copy of every guest feature per index — nothing else, keys and qualifiers
+unchanged (the table is re-sorted, hence a permutation) -/
+theorem insertAt_feats_perm (embed : Bool) (idx : List Int) (host guest : Seq) :
+    (insertAt embed idx host guest).feats.Perm
+      (host.feats.map (relocate embed guest.len idx) ++ guestCopies embed guest.len guest.feats idx) := by
+  induction idx generalizing host with
+  | nil =>
+    have : host.feats.map (relocate embed guest.len []) = host.feats := by
+      rw [show relocate embed guest.len [] = id from funext (relocate_nil embed guest.len), List.map_id]
+    simp only [guestCopies, List.append_nil, this]
+    exact List.Perm.refl _
+  | cons i idx ih =>
+    rw [insertAt_cons]
+    refine (ih _).trans ?_
+    simp only [guestCopies]
+    rw [← List.append_assoc]
+    refine List.Perm.append_right _ ?_
+    cases embed with
+    | false =>
+      simp only [Bool.false_eq_true, if_false]
+      have hp : (host.insert i guest).feats.Perm
+          (host.feats.map (fun f => { f with loc := f.loc.shift i guest.len }) ++
+           guest.feats.map (fun f => { f with loc := f.loc.expand 0 i })) := by
+        unfold Seq.insert
+        exact (Table.insertAll_perm _ _).trans ((Table.insertAll_perm [] _).append_right _)
+      refine (hp.map _).trans ?_
+      rw [List.map_append, List.map_map, List.map_map]
+      exact List.Perm.refl _
+    | true =>
+      simp only [if_true]
+      have hp : (host.embed i guest).feats.Perm
+          (host.feats.map (fun f => { f with loc := f.loc.expand i guest.len }) ++
+           guest.feats.map (fun f => { f with loc := f.loc.expand 0 i })) := by
+        unfold Seq.embed
+        exact (Table.insertAll_perm _ _).trans ((Table.insertAll_perm [] _).append_right _)
+      refine (hp.map _).trans ?_
+      rw [List.map_append, List.map_map, List.map_map]
+      exact List.Perm.refl _
+
+theorem guestCopies_length (embed : Bool) (n : Int) (gf : Table) (idx : List Int) :
+    (guestCopies embed n gf idx).length = idx.length * gf.length := by
+  induction idx with
+  | nil => simp [guestCopies]
+  | cons i idx ih =>
+    simp only [guestCopies, List.length_append, List.length_map, ih, List.length_cons]
+    rw [Nat.add_mul, Nat.one_mul]; omega
+
+/-- the copy inserted at `i`, when `post` are the indices that follow -/
+theorem mem_guestCopies (embed : Bool) (n : Int) (gf : Table) (pre : List Int) (i : Int)
+    (post : List Int) (f : Feature) (hf : f ∈ gf) :
+    relocate embed n post { f with loc := f.loc.expand 0 i } ∈
+      guestCopies embed n gf (pre ++ i :: post) := by
+  induction pre with
+  | nil =>
+    simp only [List.nil_append, guestCopies]
+    exact List.mem_append_left _ (List.mem_map_of_mem hf)
+  | cons a pre ih =>
+    simp only [List.cons_append, guestCopies]
+    exact List.mem_append_right _ ih
+
+/-! ### the composed re-mapping and its closed form -/
+
+/-- the re-mappings of the single insertions, composed in the order of the loop -/
+def composeIns (n : Int) : List Int → Int → Int
+  | [], x => x
+  | i :: idx, x => composeIns n idx (insMap i n x)
+
+/-- SPEC of a multi-site insertion of guests of length `g`, in the INPUT's coordinates: position
+`x` moves right by one guest length per head at or before it (`h ≤ x` moves, as in `insMap`) -/
+def multiInsMap (heads : List Int) (g : Int) (x : Int) : Int :=
+  x + g * (heads.countP fun h => decide (h ≤ x) : Nat)
+
+theorem multiInsMap_perm {a b : List Int} (h : a.Perm b) (g x : Int) :
+    multiInsMap a g x = multiInsMap b g x := by
+  unfold multiInsMap
+  rw [h.countP_eq]
+
+/-- **composition lemma (insert)**: inserting at DESCENDING indices (duplicates allowed) re-maps
+the positions of the input by `multiInsMap` -/
+theorem composeIns_eq_multiInsMap (n : Int) (hn : 0 ≤ n) (idx : List Int)
+    (hs : idx.Pairwise (fun a b => b ≤ a)) (x : Int) : composeIns n idx x = multiInsMap idx n x := by
+  induction idx generalizing x with
+  | nil => simp [composeIns, multiInsMap]
+  | cons i idx ih =>
+    have hp := List.pairwise_cons.mp hs
+    simp only [composeIns]
+    rw [ih hp.2]
+    unfold multiInsMap insMap
+    by_cases h : x < i
+    · rw [if_pos h, List.countP_cons_of_neg (by simp only [decide_eq_true_eq]; omega)]
+    · rw [if_neg h, List.countP_cons_of_pos (by simp only [decide_eq_true_eq]; omega)]
+      have e1 : (idx.countP fun h => decide (h ≤ x + n)) = idx.length := by
+        rw [List.countP_eq_length]
+        intro a ha
+        have := hp.1 a ha
+        simp only [decide_eq_true_eq]; omega
+      have e2 : (idx.countP fun h => decide (h ≤ x)) = idx.length := by
+        rw [List.countP_eq_length]
+        intro a ha
+        have := hp.1 a ha
+        simp only [decide_eq_true_eq]; omega
+      rw [e1, e2]
+      simp only [Int.natCast_add, Int.natCast_one, Int.mul_add, Int.mul_one]
+      omega
+
+/-- at or after the largest index every position moves by the full amount -/
+theorem multiInsMap_of_ge (idx : List Int) (n x : Int) (h : ∀ a ∈ idx, a ≤ x) :
+    multiInsMap idx n x = x + n * idx.length := by
+  unfold multiInsMap
+  have : (idx.countP fun h => decide (h ≤ x)) = idx.length := by
+    rw [List.countP_eq_length]
+    intro a ha
+    simp only [decide_eq_true_eq]; exact h a ha
+  rw [this]
+
+theorem multiInsMap_le (idx : List Int) (n x : Int) (hn : 0 ≤ n) :
+    x ≤ multiInsMap idx n x ∧ multiInsMap idx n x ≤ x + n * idx.length := by
+  unfold multiInsMap
+  have h1 : (idx.countP fun h => decide (h ≤ x)) ≤ idx.length := List.countP_le_length
+  have h2 : n * ((idx.countP fun h => decide (h ≤ x) : Nat) : Int) ≤ n * (idx.length : Int) :=
+    Int.mul_le_mul_of_nonneg_left (by omega) hn
+  have h3 : 0 ≤ n * ((idx.countP fun h => decide (h ≤ x) : Nat) : Int) :=
+    Int.mul_nonneg hn (by omega)
+  omega
+
+theorem insMap_inj (i n : Int) (hn : 0 ≤ n) (x x' : Int) (h : insMap i n x = insMap i n x') : x = x' := by
+  unfold insMap at h
+  split at h <;> split at h <;> omega
+
+theorem composeIns_inj (n : Int) (hn : 0 ≤ n) (idx : List Int) (x x' : Int)
+    (h : composeIns n idx x = composeIns n idx x') : x = x' := by
+  induction idx generalizing x x' with
+  | nil => exact h
+  | cons i idx ih => exact insMap_inj i n hn x x' (ih _ _ h)
+
+/-! ### the denotation of a host feature after the loop -/
+
+/-- **`gts insert`, host features**: after the loop the location denotes the former residues
+re-mapped by the composed insertions, provided K2 fires in no step -/
+theorem insLoc_den (n : Int) (hn : 0 ≤ n) (idx : List Int) (l : Loc) (hw : wf l = true) :
+    (insAbs false n idx l = false →
+      den (insLoc false n idx l) ≼ mapPos (composeIns n idx) (den l)) ∧
+    wf (insLoc false n idx l) = true := by
+  induction idx generalizing l with
+  | nil =>
+    refine ⟨fun _ => ?_, hw⟩
+    simp only [insLoc]
+    rw [show composeIns n [] = fun x => x from rfl, mapPos_id]
+    exact Refines.refl _
+  | cons i idx ih =>
+    have hstep := shift_ins l i n hw hn
+    have h := ih (l.shift i n) hstep.2
+    simp only [insLoc, Bool.false_eq_true, if_false]
+    refine ⟨?_, h.2⟩
+    intro ha
+    simp only [insAbs, Bool.false_eq_true, if_false, Bool.or_eq_false_iff] at ha
+    have h1 := h.1 ha.2
+    have h2 := mapPos_refines (composeIns n idx) (hstep.1 ha.1)
+    rw [mapPos_mapPos] at h2
+    exact h1.trans h2
+
+/-- output positions of the guest copies: the copy inserted at `i` is moved right by every later
+insertion (all at indices `≤ i`) -/
+def copyStarts (n : Int) : List Int → List Int
+  | [] => []
+  | i :: idx => (i + n * idx.length) :: copyStarts n idx
+
+/-- drop the residues of all guest copies `[c, c+n)`, `c ∈ cs` -/
+def stripGuests (cs : List Int) (n : Int) (d : List Pos) : List Pos :=
+  d.filter fun p => cs.all fun c => decide (p.1 < c ∨ c + n ≤ p.1)
+
+theorem stripGuests_nil (n : Int) (d : List Pos) : stripGuests [] n d = d := by
+  unfold stripGuests
+  simp
+
+theorem stripGuests_cons (c : Int) (cs : List Int) (n : Int) (d : List Pos) :
+    stripGuests (c :: cs) n d = stripGuest c n (stripGuests cs n d) := by
+  unfold stripGuests stripGuest
+  rw [List.filter_filter]
+  apply List.filter_congr
+  intro p _
+  simp only [List.all_cons]
+
+theorem stripGuest_mapPos (c n : Int) (f : Int → Int) (d : List Pos) :
+    stripGuest c n (mapPos f d) = mapPos f (d.filter fun p => decide (f p.1 < c ∨ c + n ≤ f p.1)) := by
+  unfold stripGuest mapPos
+  rw [List.filter_map]
+  rfl
+
+/-- **`gts infix`, host features**: `Expand` stretches a part spanning an index over the guest;
+outside the guest copies the location denotes the former residues re-mapped by the composed
+insertions, provided K2 fires in no step (descending indices) -/
+theorem embLoc_den (n : Int) (hn : 0 ≤ n) (idx : List Int) (hs : idx.Pairwise (fun a b => b ≤ a))
+    (l : Loc) (hw : wf l = true) :
+    (insAbs true n idx l = false →
+      stripGuests (copyStarts n idx) n (den (insLoc true n idx l)) ≼
+        mapPos (composeIns n idx) (den l)) ∧
+    wf (insLoc true n idx l) = true := by
+  induction idx generalizing l with
+  | nil =>
+    refine ⟨fun _ => ?_, hw⟩
+    simp only [insLoc, copyStarts, stripGuests_nil]
+    rw [show composeIns n [] = fun x => x from rfl, mapPos_id]
+    exact Refines.refl _
+  | cons i idx ih =>
+    have hp := List.pairwise_cons.mp hs
+    have hstep := expand_ins l i n hw hn
+    have h := ih hp.2 (l.expand i n) hstep.2
+    simp only [insLoc, if_true]
+    refine ⟨?_, h.2⟩
+    intro ha
+    simp only [insAbs, if_true, Bool.or_eq_false_iff] at ha
+    have h1 := (h.1 ha.2).filter (fun p => decide (p.1 < i + n * idx.length ∨ i + n * idx.length + n ≤ p.1))
+    have h2 := mapPos_refines (composeIns n idx) (hstep.1 ha.1)
+    rw [mapPos_mapPos] at h2
+    simp only [copyStarts, stripGuests_cons]
+    refine (h1.trans ?_).trans h2
+    apply Refines.of_eq
+    show stripGuest (i + n * idx.length) n (mapPos (composeIns n idx) (den (l.expand i n))) = _
+    rw [stripGuest_mapPos]
+    congr 1
+    unfold stripGuest
+    apply List.filter_congr
+    intro p _
+    rw [composeIns_eq_multiInsMap n hn idx hp.2]
+    by_cases hx : i ≤ p.1
+    · rw [multiInsMap_of_ge idx n p.1 (fun a ha => by have := hp.1 a ha; omega)]
+      apply decide_eq_decide.mpr
+      constructor <;> intro h <;> omega
+    · have := multiInsMap_le idx n p.1 hn
+      apply decide_eq_decide.mpr
+      constructor <;> intro h <;> omega
+
 end Gts.Cli
